@@ -120,7 +120,18 @@ async fn run_srv(tok: &[&str]) -> String {
         vec![peer_cert.to_string()]
     };
     let mut groups: Vec<String> = Vec::new();
+    // `silent`: a peer that connects and never sends a byte; it stays connected for the rest of the
+    // case (a pending handshake must not keep other peers from being served)
+    let mut silent: Vec<tokio::net::TcpStream> = Vec::new();
     for peer_cert in peers {
+        if peer_cert == "silent" {
+            if let Ok(s) = tokio::net::TcpStream::connect(("127.0.0.1", port)).await {
+                silent.push(s);
+            }
+            tokio::time::sleep(Duration::from_millis(50)).await;
+            groups.push("hs=fail ver=- reply=- role=- calls=0".to_string());
+            continue;
+        }
         let seen = log.lock().unwrap().len();
         let (reply, err) = match one_peer(port, tok[5], &peer_cert).await {
             Ok(x) => x,
@@ -145,6 +156,7 @@ async fn run_srv(tok: &[&str]) -> String {
             calls.iter().filter(|c| !c.starts_with('A')).count()
         ));
     }
+    drop(silent);
     drop(handle);
     let _ = tokio::time::timeout(Duration::from_millis(500), join).await;
     groups.join(" ; ")
